@@ -22,10 +22,35 @@ import (
 
 func TestMain(m *testing.M) { h.Main(m) }
 
+// memSel: selectors of in-memory re-rootings applied to the trees after parsing (set from the
+// case at the start of each check; cases are evaluated one at a time). The oracles of this
+// property do not depend on the rooting, but a tree re-rooted in memory is in a state (parent not
+// first among a node's neighbours) that no freshly parsed tree has.
+var memSel []int
+
+func mem(i int) int {
+	if len(memSel) == 0 {
+		return 0
+	}
+	return memSel[i%len(memSel)]
+}
+
+func parseMem(m *ref.Node, i int) (*tree.Tree, error) {
+	t, err := gt.FromModel(m)
+	if err != nil {
+		return nil, err
+	}
+	if err := gt.RerootInMemory(t, mem(i)); err != nil {
+		return nil, fmt.Errorf("Reroot failed: %v", err)
+	}
+	return t, nil
+}
+
 type Case struct {
 	Trees  []*ref.Node `json:"trees"`
 	Alt    []*ref.Node `json:"alt"` // permuted, re-presented collection
 	Cutoff float64     `json:"cutoff"`
+	Mem    []int       `json:"mem,omitempty"` // in-memory re-rootings of the parsed trees (0 = none)
 }
 
 func baseOpts(thorough bool) gen.Opts {
@@ -141,7 +166,7 @@ func cutoff(t *rapid.T, n int) float64 {
 func feed(models []*ref.Node) (<-chan tree.Trees, error) {
 	ch := make(chan tree.Trees, len(models)+1)
 	for i, m := range models {
-		t, err := gt.FromModel(m)
+		t, err := parseMem(m, i+1)
 		if err != nil {
 			return nil, err
 		}
@@ -259,6 +284,8 @@ func compareConsensus(m *ref.Node, n int, cut float64, tx *ref.Taxa, table map[s
 }
 
 func check(c Case) error {
+	memSel = c.Mem
+	defer func() { memSel = nil }()
 	tx, table, trivial, err := expectedTable(c.Trees)
 	if err != nil {
 		return err
@@ -291,6 +318,9 @@ func TestC09Consensus(t *testing.T) {
 		Gen: func(t *rapid.T, thorough bool) Case {
 			trees := genCollection(t, thorough, 1)
 			c := Case{Trees: trees, Cutoff: cutoff(t, len(trees))}
+			if rapid.Bool().Draw(t, "mem") {
+				c.Mem = rapid.SliceOfN(rapid.IntRange(0, 50), 1, 6).Draw(t, "memsel")
+			}
 			perm := rapid.Permutation(trees).Draw(t, "perm")
 			for _, m := range perm {
 				switch rapid.IntRange(0, 2).Draw(t, "altp") {
